@@ -1444,7 +1444,7 @@ class Executor(object):
                                ', '.join('%s:%r' % (k, v.ty) for k, v in args.items())))
         case = chosen
         if case.status != 'verified':
-            self.assumed_log.append('%s [%s]' % (qualname, case.status))
+            self.assumed_log.append('%s {%s} [%s]' % (qualname, case.name, case.status))
         # bind: fill defaults, coerce to declared types
         bound = {}
         for pname, spec in case.params.items():
